@@ -1,11 +1,21 @@
 """Execution of NashMTL histories on the real torchjd and interpretation of the model's terms.
 
 A *history* is a sequence of matrix symbols and ``"reset"``; it is run on ONE real instance
-``NashMTL(n_tasks=m, max_norm=mn, update_weights_every=k)``.  The oracle for a call is the
-interpretation of the term the TLA+ model prescribes for it (``chain`` = matrices of the Solve chain,
-innermost first): a FRESH real instance with ``update_weights_every=1`` and a never-binding
-``max_norm`` is fed exactly the matrices of the chain; the weights it returns last are clipped by the
-harness against the matrix of the call and combined with it.
+``NashMTL(n_tasks=m, max_norm=mn, update_weights_every=k, optim_niter=niter)``.  Two oracles:
+
+* term oracle: the interpretation of the term the TLA+ model prescribes for a call (``chain`` =
+  matrices of the Solve chain, innermost first): a FRESH real instance with ``update_weights_every=1``,
+  THE SAME ``optim_niter`` and a never-binding ``max_norm`` is fed exactly the matrices of the chain;
+  the weights it returns last are clipped by the harness against the matrix of the call and combined
+  with it.  Every term is interpreted twice, by two independent lines of fresh instances; a term whose
+  two interpretations are not bit-identical is not reproducible, is excluded and counted.
+* period oracle (no fresh instance involved): the weight vector the weighting returned on a reuse call
+  (forward hook) must be the one it returned on the recompute call that opened the period (``ref``,
+  named by the model), up to the max_norm rescaling of each call against its own matrix.
+
+Configuration space (spec/NashMTL.tla: NIters, Presentations): optim_niter, rows, max_norm binding or
+not, dtype, and the kind of matrix alphabet (ordinary / small / gauss / struggle).  The struggle
+alphabets are found by a seeded search on the code under test (``find_struggle``); nothing is stored.
 
 Nothing here decides *which* calls recompute: that comes from TLC (scenario export / NEED lines).
 """
@@ -13,6 +23,8 @@ Nothing here decides *which* calls recompute: that comes from TLC (scenario expo
 from __future__ import annotations
 
 import math
+import multiprocessing as mp
+import os
 
 import torch
 
@@ -20,13 +32,21 @@ ORACLE_MAX_NORM = 1e30
 EPS = {torch.float32: 2.0 ** -23, torch.float64: 2.0 ** -52}
 DTYPES = {"float32": torch.float32, "float64": torch.float64}
 SCALES = [1.0, 8.0, 1.0 / 16, 2.0, 1.0 / 4, 32.0, 1.0, 1.0 / 2]      # powers of two, per symbol index
+ALPHABET_KINDS = ("ordinary", "small", "gauss", "struggle")
+SMALL = 2.0 ** -10                  # scale of the "small" alphabets
+COND_MAX = 20.0                     # gaussian candidates are kept only if cond <= COND_MAX
+CLIP = {"binding": 1.0, "loose": 3.0}
+SEARCHED_SLOTS = 2                  # struggle alphabets: symbols 2..1+SEARCHED_SLOTS are searched
+SEARCH_BUDGET = 48                  # candidates scanned per alphabet
 
 _solve_counter = [0]
+_solve_failed = [0]
 _patched = [False]
 
 
 def patch_solve_counter() -> None:
-    """Count cvxpy.Problem.solve invocations (observation boundary of C19, DESIGN 5.1)."""
+    """Count cvxpy.Problem.solve invocations (observation boundary of C19, DESIGN 5.1) and those
+    among them that end without a solution (exception, or a variable left without a value)."""
     if _patched[0]:
         return
     import cvxpy as cp
@@ -35,7 +55,14 @@ def patch_solve_counter() -> None:
 
     def counting_solve(self, *a, **kw):
         _solve_counter[0] += 1
-        return orig(self, *a, **kw)
+        try:
+            r = orig(self, *a, **kw)
+        except Exception:
+            _solve_failed[0] += 1
+            raise
+        if any(v.value is None for v in self.variables()):
+            _solve_failed[0] += 1
+        return r
 
     cp.Problem.solve = counting_solve
     _patched[0] = True
@@ -47,6 +74,7 @@ def sym_index(sym: str) -> int:
     return int(sym[1:]) - 1                     # "M1", "M2", ...
 
 
+# ----------------------------------------------------------------------------- matrix families
 def matrix(seed: int, m: int, sym: str, dtype: torch.dtype) -> torch.Tensor:
     """Well-conditioned m x (m+2) matrix for a symbol: orthonormal rows mixed by a matrix close to
     the identity (condition number <= 3), times a power-of-two scale that depends on the symbol, so
@@ -62,69 +90,199 @@ def matrix(seed: int, m: int, sym: str, dtype: torch.dtype) -> torch.Tensor:
     return J.to(dtype)
 
 
-class Oracle:
-    """Interpretation of weight terms by fresh real instances (memoised per process)."""
+_cand_cache: dict[tuple, torch.Tensor] = {}
 
-    def __init__(self, seed: int, m: int, dtype: torch.dtype):
-        self.seed, self.m, self.dtype = seed, m, dtype
-        self.cache: dict[tuple, torch.Tensor] = {}
+
+def candidate(seed: int, m: int, j: int) -> torch.Tensor:
+    """j-th gaussian m x (m+2) candidate (float64) of (seed, m); seeded rejection until the
+    condition number is <= COND_MAX."""
+    key = (seed, m, j)
+    if key not in _cand_cache:
+        attempt = 0
+        while True:
+            g = torch.Generator().manual_seed(2_000_003 * (seed + 1) + 7919 * m + 15_485_863 * j + 31 * attempt + 5)
+            J = torch.randn(m, m + 2, generator=g, dtype=torch.float64)
+            if float(torch.linalg.cond(J)) <= COND_MAX:
+                break
+            attempt += 1
+        if len(_cand_cache) > 4096:
+            _cand_cache.clear()
+        _cand_cache[key] = J
+    return _cand_cache[key]
+
+
+def matrix_for(cfg: dict, sym: str) -> torch.Tensor:
+    seed, m, dtype = cfg["seed"], cfg["m"], DTYPES[cfg["dtype"]]
+    kind = cfg.get("alphabet", "ordinary")
+    idx = sym_index(sym)
+    if kind == "ordinary":
+        return matrix(seed, m, sym, dtype)
+    if kind == "small":
+        return (matrix(seed, m, sym, torch.float64) * SMALL).to(dtype)
+    if kind == "gauss":
+        return (candidate(seed, m, 1000 + idx) * SCALES[idx % len(SCALES)]).to(dtype)
+    if kind == "struggle":
+        picks = cfg.get("picks") or []
+        j = picks[idx] if idx < len(picks) else 2000 + idx
+        return candidate(seed, m, j).to(dtype)
+    raise ValueError(f"unknown alphabet kind {kind}")
+
+
+def _scout_fails(m: int, niter: int, mats: list) -> int:
+    """Feed the matrices to a fresh weighting (update_weights_every=1); number of solves of the LAST
+    call that ended without a solution."""
+    from torchjd.aggregation import NashMTL
+
+    patch_solve_counter()
+    inst = NashMTL(n_tasks=m, max_norm=ORACLE_MAX_NORM, update_weights_every=1, optim_niter=niter)
+    f0 = 0
+    for J in mats:
+        f0 = _solve_failed[0]
+        inst.weighting(J)
+    return _solve_failed[0] - f0
+
+
+def struggle_key(cfg: dict) -> tuple:
+    """The search is made once per (seed, rows, budget) in float64 - with budget 1 if that is the
+    budget of the configuration, with the default budget otherwise; whether the solver also fails
+    in the configuration that uses the alphabet is measured during the replay (counters)."""
+    niter = int(cfg.get("niter", 20))
+    return (cfg["seed"], cfg["m"], 1 if niter == 1 else 20)
+
+
+def _scan_block(job: tuple) -> dict:
+    """Which candidates of a block make a fresh weighting, fed candidate 0 before, end a solve without
+    a solution?"""
+    (seed, m, niter), lo, hi = job
+    torch.set_num_threads(1)
+    hits, err = [], None
+    try:
+        first = candidate(seed, m, 0)
+        for j in range(lo, hi):
+            if _scout_fails(m, niter, [first, candidate(seed, m, j)]) > 0:
+                hits.append(j)
+    except Exception as e:                                          # noqa: BLE001  (reported by the caller)
+        err = f"{type(e).__name__}: {e}"
+    return {"hits": hits, "err": err}
+
+
+def find_struggle_many(keys: list) -> dict:
+    """Seeded search, on the code under test, of a struggle alphabet per key (seed, m, niter): symbol
+    1 is candidate 0; symbols 2.. are the first candidates (among 1..SEARCH_BUDGET) on which a fresh
+    weighting that was fed symbol 1 before ends a solve without a solution (so the failing
+    recomputation is not the first one of a segment); if fewer are found the next unused candidates
+    fill in.  {key: {"picks", "found", "err"}} - the scans run in parallel (own pool: few, long items)."""
+    keys = sorted(set(keys))
+    if not keys:
+        return {}
+    block, stage = 8, SEARCH_BUDGET // 2
+    hits: dict[tuple, list] = {k: [] for k in keys}
+    errs: dict[tuple, str | None] = {k: None for k in keys}
+    for lo0 in (1, 1 + stage):                       # second half only for the keys that still lack symbols
+        todo = [k for k in keys if len(hits[k]) < SEARCHED_SLOTS and not errs[k]]
+        jobs = [(k, lo, min(lo + block, lo0 + stage)) for k in todo for lo in range(lo0, lo0 + stage, block)]
+        procs = min(16, os.cpu_count() or 4, len(jobs))
+        if procs <= 1:
+            res = [_scan_block(j) for j in jobs]
+        else:
+            with mp.get_context("fork").Pool(procs) as pool:
+                res = pool.map(_scan_block, jobs, chunksize=1)
+        for j, r in zip(jobs, res):
+            hits[j[0]] += r["hits"]
+            errs[j[0]] = errs[j[0]] or r["err"]
+    out = {}
+    for k in keys:
+        hs = sorted(hits[k])[:SEARCHED_SLOTS]
+        fill = [j for j in range(1, SEARCH_BUDGET + 1) if j not in hs][:SEARCHED_SLOTS - len(hs)]
+        out[k] = {"key": list(k), "picks": [0] + hs + fill, "found": len(hs), "err": errs[k]}
+    return out
+
+
+# ----------------------------------------------------------------------------- term oracle
+def _bits(t: torch.Tensor) -> bytes:
+    return t.detach().contiguous().numpy().tobytes()
+
+
+class Oracle:
+    """Interpretation of weight terms by fresh real instances (memoised per process).  Two independent
+    lanes of instances interpret every term; the interpretation is usable iff they agree bit for bit."""
+
+    def __init__(self, cfg: dict):
+        self.cfg = {k: cfg[k] for k in ("seed", "m", "dtype") if k in cfg}
+        self.cfg["alphabet"] = cfg.get("alphabet", "ordinary")
+        self.cfg["picks"] = list(cfg.get("picks") or [])
+        self.m, self.niter = cfg["m"], int(cfg.get("niter", 20))
+        self.cache: dict[tuple, tuple] = {}
         self.mats: dict[str, torch.Tensor] = {}
-        self.live: dict[tuple, object] = {}
+        self.live: list[dict] = [{}, {}]
         self.solves = 0
 
     def mat(self, sym: str) -> torch.Tensor:
         if sym not in self.mats:
-            self.mats[sym] = matrix(self.seed, self.m, sym, self.dtype)
+            self.mats[sym] = matrix_for(self.cfg, sym)
         return self.mats[sym]
 
-    def weights(self, chain: tuple) -> torch.Tensor:
+    def _lane(self, lane: int, chain: tuple) -> torch.Tensor:
+        from torchjd.aggregation import NashMTL
+
+        # a fresh instance fed exactly the matrices of the chain; an instance that has been fed
+        # exactly chain[:-1] (and nothing else) is continued instead of being rebuilt
+        live = self.live[lane]
+        inst = live.pop(chain[:-1], None)
+        todo = chain[-1:]
+        if inst is None:
+            inst = NashMTL(n_tasks=self.m, max_norm=ORACLE_MAX_NORM, update_weights_every=1,
+                           optim_niter=self.niter)
+            todo = chain
+        w = None
+        for s in todo:
+            w = inst.weighting(self.mat(s))
+            self.solves += 1
+        nrm = float(torch.linalg.norm(w @ self.mat(chain[-1])))
+        if nrm >= ORACLE_MAX_NORM / 4:                     # (a NaN norm is left to the comparison)
+            raise RuntimeError(f"oracle instance was clipped (norm {nrm})")
+        if len(live) > 16:
+            live.clear()
+        live[chain] = inst
+        return w.detach().clone()
+
+    def weights(self, chain: tuple):
+        """-> (weights, reproducible?)"""
         if not chain:
             raise ValueError("empty chain: every output follows at least one solve")
         if chain not in self.cache:
-            from torchjd.aggregation import NashMTL
-
-            # a fresh instance fed exactly the matrices of the chain; an instance that has been fed
-            # exactly chain[:-1] (and nothing else) is continued instead of being rebuilt
-            inst = self.live.pop(chain[:-1], None)
-            todo = chain[-1:]
-            if inst is None:
-                inst = NashMTL(n_tasks=self.m, max_norm=ORACLE_MAX_NORM, update_weights_every=1)
-                todo = chain
-            w = None
-            for s in todo:
-                w = inst.weighting(self.mat(s))
-                self.solves += 1
-            nrm = float(torch.linalg.norm(w @ self.mat(chain[-1])))
-            if not nrm < ORACLE_MAX_NORM / 4:
-                raise RuntimeError(f"oracle instance was clipped (norm {nrm})")
-            if len(self.live) > 16:
-                self.live.clear()
-            self.live[chain] = inst
+            w0 = self._lane(0, chain)
+            w1 = self._lane(1, chain)
             if len(self.cache) > 4096:
                 self.cache.clear()
-            self.cache[chain] = w.detach().clone()
+            self.cache[chain] = (w0, _bits(w0) == _bits(w1) and bool(torch.isfinite(w0).all()))
         return self.cache[chain]
 
     def expected(self, chain: tuple, sym: str, max_norm: float):
-        """clip(weights(chain)) . J_sym  ->  (vector, clipped weights, binding?)"""
+        """clip(weights(chain)) . J_sym  ->  (vector, clipped weights, binding?, reproducible?)"""
         J = self.mat(sym)
-        w = self.weights(chain)
+        w, repro = self.weights(chain)
         norm = torch.linalg.norm(w @ J)
-        binding = bool(norm > max_norm)
+        binding = bool(max_norm > 0 and norm > max_norm)
         if binding:
             w = (w / norm) * max_norm
-        return w @ J, w, binding
+        return w @ J, w, binding, repro
 
 
 _oracles: dict[tuple, Oracle] = {}
 
 
-def oracle_for(seed: int, m: int, dtype_name: str) -> Oracle:
-    key = (seed, m, dtype_name)
+def oracle_key(cfg: dict) -> tuple:
+    return (cfg["seed"], cfg["m"], cfg["dtype"], int(cfg.get("niter", 20)), cfg.get("alphabet", "ordinary"),
+            tuple(cfg.get("picks") or ()))
+
+
+def oracle_for(cfg: dict) -> Oracle:
+    key = oracle_key(cfg)
     if key not in _oracles:
         if len(_oracles) > 64:
             _oracles.clear()
-        _oracles[key] = Oracle(seed, m, DTYPES[dtype_name])
+        _oracles[key] = Oracle(cfg)
     return _oracles[key]
 
 
@@ -137,22 +295,71 @@ def allowance(w: torch.Tensor, J: torch.Tensor) -> torch.Tensor:
     return 16 * (m + 3) * eps * (w.abs() @ J.abs()) + 1e-300
 
 
-def run_history(cfg: dict, k: int, events: list, chains: list | None):
+# ----------------------------------------------------------------------------- period oracle
+def period_check(wr: torch.Tensor, Jr: torch.Tensor, wi: torch.Tensor, Ji: torch.Tensor, mn: float) -> dict:
+    """Is ``wi`` (weights returned on a reuse call, matrix Ji) what the weights in force on the
+    recompute call that opened the period (returned ``wr``, matrix Jr) give on Ji?
+
+    Let a be the stored (raw) weights.  Each call returns a if |a.J| <= max_norm, else a*max_norm/|a.J|
+    (3 roundings per weight).  Hence wi = s*wr for a scalar s, and with q = |wr.Ji|:
+      * the recompute call was not rescaled (|wr.Jr| < max_norm, beyond rounding): a = wr and
+        s = min(1, max_norm/q);
+      * otherwise a = t*wr with an unobserved t >= 1, and s = min(t, max_norm/q) lies in
+        [min(1, max_norm/q), max_norm/q].
+    s is fitted by least squares; each ratio wi_j/wr_j is s(1 + 6 eps) at worst, so the residual is
+    <= 12 eps |s wr_j| per coordinate (16 used); the norms carry (m + n + 3) eps relative (16x used)."""
+    eps = EPS[Ji.dtype]
+    m, n = Ji.shape
+    delta = 16 * (m + n + 3) * eps
+    a, b = wr.double(), wi.double()
+    if not (bool(torch.isfinite(a).all()) and bool(torch.isfinite(b).all())) or a.shape != b.shape:
+        return {"ok": False, "why": "non-finite weights", "s": None, "lo": None, "hi": None, "resid": None}
+    aa = float(a @ a)
+    if aa == 0.0:
+        ok = bool((b == 0).all())
+        return {"ok": ok, "why": "zero weights", "s": 0.0, "lo": 0.0, "hi": 0.0, "resid": float(b.abs().max())}
+    s = float(a @ b) / aa
+    resid = (b - s * a).abs()
+    ok_dir = bool((resid <= 16 * eps * (s * a).abs() + 1e-300).all())
+    if mn <= 0:
+        lo = hi = 1.0
+    else:
+        nr = float(torch.linalg.norm(a @ Jr.double()))
+        q = float(torch.linalg.norm(a @ Ji.double()))
+        base = min(1.0, mn / q) if q > 0 else 1.0
+        if nr < mn * (1 - delta):
+            lo = hi = base
+        else:
+            lo, hi = base, (mn / q if q > 0 else math.inf)
+    ok_scale = lo * (1 - delta) <= s <= hi * (1 + delta)
+    return {"ok": ok_dir and ok_scale, "why": "direction" if not ok_dir else ("scale" if not ok_scale else ""),
+            "s": s, "lo": lo, "hi": hi, "resid": float((resid / ((s * a).abs() + 1e-300)).max())}
+
+
+# ----------------------------------------------------------------------------- one history
+def run_history(cfg: dict, k: int, events: list, chains: list | None, refs: list | None = None):
     """Run one history on one real instance.
 
-    cfg    : {"seed", "m", "dtype", "max_norm"}
+    cfg    : {"seed", "m", "dtype", "max_norm", "niter", "alphabet"[, "picks"]}
     events : list of symbols / "reset"
     chains : per CALL (in order) the chain prescribed by the model, or None (observe only)
+    refs   : per CALL (in order) the position of the recompute call that opened its period, as
+             prescribed by the model, or None
     Returns a list with one record per call:
-      {at, sym, solves, exc, out, ok_value, ok_norm, binding, maxdiff, tol}
+      {at, sym, solves, failed, exc, out, ok_value, ok_period, ok_norm, binding, repro, maxdiff, tol, ...}
     """
     from torchjd.aggregation import NashMTL
 
     patch_solve_counter()
     torch.set_num_threads(1)
-    m, mn = cfg["m"], float(cfg["max_norm"])
-    orc = oracle_for(cfg["seed"], m, cfg["dtype"])
-    inst = NashMTL(n_tasks=m, max_norm=mn, update_weights_every=k)
+    m, mn, niter = cfg["m"], float(cfg["max_norm"]), int(cfg.get("niter", 20))
+    orc = oracle_for(cfg)
+    inst = NashMTL(n_tasks=m, max_norm=mn, update_weights_every=k, optim_niter=niter)
+    seen_w: list = []
+    inst.weighting.register_forward_hook(lambda _mod, _inp, out: seen_w.append(out.detach().clone()))
+    w_at: dict[int, torch.Tensor] = {}
+    failed_at: dict[int, int] = {}
+    exhausted_at: dict[int, bool] = {}
     recs = []
     ci = 0
     for pos, sym in enumerate(events, start=1):
@@ -160,9 +367,9 @@ def run_history(cfg: dict, k: int, events: list, chains: list | None):
             inst.reset()
             continue
         J = orc.mat(sym)
-        rec = {"at": pos, "sym": sym, "solves": 0, "exc": "none", "out": None, "ok_value": None,
-               "ok_norm": None, "binding": None, "maxdiff": None, "tol": None}
-        c0 = _solve_counter[0]
+        rec = {"at": pos, "sym": sym, "solves": 0, "failed": 0, "exc": "none", "out": None, "ok_value": None,
+               "ok_period": None, "ok_norm": None, "binding": None, "repro": True, "maxdiff": None, "tol": None}
+        c0, f0, n0 = _solve_counter[0], _solve_failed[0], len(seen_w)
         try:
             out = inst(J)
         except Exception as e:                                  # noqa: BLE001
@@ -172,20 +379,44 @@ def run_history(cfg: dict, k: int, events: list, chains: list | None):
             recs.append(rec)
             break                                               # the state after a failure is unknown
         rec["solves"] = _solve_counter[0] - c0
+        rec["failed"] = _solve_failed[0] - f0
+        rec["exhausted"] = rec["solves"] >= niter               # the inner loop used its whole budget
         rec["out"] = [float(x) for x in out]
+        if len(seen_w) != n0 + 1:
+            raise RuntimeError(f"the weighting of the aggregator was invoked {len(seen_w) - n0} times by one call "
+                               "(observation point of the weights lost)")
+        w_at[pos] = seen_w[-1]
+        failed_at[pos] = rec["failed"]
+        exhausted_at[pos] = rec["exhausted"]
+        rec["weights"] = [float(x) for x in w_at[pos]]
+        if refs is not None:
+            r = refs[ci]
+            rec["ref"] = r
+            if r != pos:
+                if r not in w_at:
+                    raise RuntimeError(f"no weights recorded for the period opener {r} of call {pos}")
+                pc = period_check(w_at[r], orc.mat(events[r - 1]), w_at[pos], J, mn)
+                rec["ok_period"] = pc["ok"]
+                rec["period"] = pc
+                rec["ref_weights"] = [float(x) for x in w_at[r]]
+                rec["ref_failed"] = failed_at[r]
+                rec["ref_exhausted"] = exhausted_at[r]
+                rec["ref_first"] = r == 1 or events[r - 2] == "reset"      # first call of its segment
         if chains is not None:
-            exp, w, binding = orc.expected(tuple(chains[ci]), sym, mn)
+            exp, w, binding, repro = orc.expected(tuple(chains[ci]), sym, mn)
             tol = allowance(w, J)
             diff = (out - exp).abs()
             finite = bool(torch.isfinite(out).all())
-            rec["ok_value"] = finite and bool((diff <= tol).all()) and out.shape == exp.shape
+            rec["repro"] = repro
+            rec["ok_value"] = (not repro) or (finite and bool((diff <= tol).all()) and out.shape == exp.shape)
             rec["maxdiff"] = float(diff.max())
             rec["tol"] = float(tol.max())
             rec["binding"] = binding
             rec["expected"] = [float(x) for x in exp]
             # |out| <= max_norm: the exact norm of the clipped weights' combination is max_norm up to
             # 3 roundings; the combination itself adds gamma_m |w|^T|J| per coordinate
-            nb = mn * (1 + 8 * EPS[J.dtype]) + float(torch.linalg.norm(tol))
+            tol_n = allowance(w_at[pos], J)
+            nb = mn * (1 + 8 * EPS[J.dtype]) + float(torch.linalg.norm(tol_n))
             rec["ok_norm"] = finite and (mn <= 0 or float(torch.linalg.norm(out)) <= nb)
             rec["norm"] = float(torch.linalg.norm(out))
         ci += 1
@@ -193,21 +424,28 @@ def run_history(cfg: dict, k: int, events: list, chains: list | None):
     return recs
 
 
-def config_list() -> list[dict]:
+# ----------------------------------------------------------------------------- configuration space
+def config_list(presentations: list | None = None) -> list[dict]:
+    """Presentations of the model (rows x clip mode x alphabet kind) x dtype, alphabet fastest."""
+    if presentations is None:
+        presentations = [{"m": m, "clip": c, "alphabet": a} for m in (2, 3, 4, 5) for c in ("binding", "loose")
+                         for a in ALPHABET_KINDS]
+    pres = sorted(presentations, key=lambda p: (p["m"], p["clip"], ALPHABET_KINDS.index(p["alphabet"])))
     out = []
-    for m in (2, 3, 4, 5):
+    for i, p in enumerate(pres):
         for dt in ("float64", "float32"):
-            for mn in (1.0, 3.0):
-                out.append({"m": m, "dtype": dt, "max_norm": mn})
+            out.append({"m": p["m"], "dtype": dt, "max_norm": CLIP[p["clip"]], "alphabet": p["alphabet"]})
+    # order: alphabet kind varies fastest, then dtype, then clip, then rows
+    out.sort(key=lambda c: (c["m"], c["max_norm"], c["dtype"], ALPHABET_KINDS.index(c["alphabet"])))
     return out
 
 
-def conditioning(seed: int) -> float:
-    worst = 0.0
+def conditioning(seed: int) -> dict:
+    worst = {"ordinary": 0.0, "gauss": 0.0}
     for m in (2, 3, 4, 5):
         for i in range(8):
-            J = matrix(seed, m, f"M{i + 1}", torch.float64)
-            worst = max(worst, float(torch.linalg.cond(J)))
+            worst["ordinary"] = max(worst["ordinary"], float(torch.linalg.cond(matrix(seed, m, f"M{i + 1}", torch.float64))))
+            worst["gauss"] = max(worst["gauss"], float(torch.linalg.cond(candidate(seed, m, 1000 + i))))
     return worst
 
 
